@@ -388,6 +388,17 @@ fn write_spec(s: &ProgSpec) -> R<Result<(Written, Vec<ExpRow>, Vec<Option<ExpFil
         let pos = p.files().position(|(fid, _, _)| fid == *id);
         ensure_eq!(pos, Some(file_model_idx[i]), "c13/files/id-position", "file #{} {:?}", i, String::from_utf8_lossy(if i == 0 { &s.source_file } else { &s.files[i - 1].name }));
     }
+    // the table accessors of the writer give back what was added
+    for (i, id) in file_ids.iter().enumerate() {
+        let name = if i == 0 { &s.source_file } else { &s.files[i - 1].name };
+        let d = if i == 0 { 1 } else { s.files[i - 1].dir.min(dir_ids.len() - 1) };
+        let (got_name, got_dir) = p.get_file(*id);
+        ensure_eq!(got_name.get(&st, &ls), &name[..], "c13/files/get_file-name", "file #{}", i);
+        ensure_eq!(p.get_directory(got_dir).get(&st, &ls), &dir_names[d][..], "c13/files/get_file-directory", "file #{} {:?}", i, String::from_utf8_lossy(name));
+    }
+    for (k, id) in dir_ids.iter().enumerate() {
+        ensure_eq!(p.get_directory(*id).get(&st, &ls), &dir_names[k][..], "c13/files/get_directory", "directory #{}", k);
+    }
     let raw_of = |i: usize| -> u64 {
         if s.version <= 4 {
             file_model_idx[i] as u64 + 1
